@@ -3775,6 +3775,14 @@ func (r *Resolver) processDelegation(ctx context.Context, rs *resolveState, resp
 	// than restarting the lease (GHSA-mqfw-f48p-2vc8).
 	observedAt := time.Now()
 	leaseDeadline := observedAt.Add(time.Duration(nsInfo.nsTTL) * time.Second)
+	// The delegation cache holds nothing longer than its ceiling. Apply it
+	// here, to the deadline itself: this value is also what the answer cache
+	// and every deeper delegation of this descent are bounded by, and left
+	// raw (a TLD referral says 172800s) the answer that established the
+	// delegation would be served long after the delegation is gone.
+	if ceiling := observedAt.Add(authority.MaxLease); leaseDeadline.After(ceiling) {
+		leaseDeadline = ceiling
+	}
 
 	// DNSSEC validation for delegation
 	newParentDS, err := r.validateDelegation(ctx, rs.req, resp, q, rs.parentDS, rs.servers.Zone)
